@@ -2,6 +2,7 @@ package interp
 
 import (
 	"fmt"
+	"strings"
 	"go/types"
 
 	"symgo/term"
@@ -27,6 +28,7 @@ type Thread struct {
 	killed bool
 	vc     vclock
 	ops    int
+	lastLog int
 }
 
 type evKind int
@@ -106,7 +108,7 @@ func (in *Interp) newChan(n int) *ChanObj {
 
 func (in *Interp) spawn(fv Value, args []Value, fr *frame, call *ssa.CallCommon) {
 	in.visible("go")
-	t := &Thread{id: len(in.threads), resume: make(chan struct{}), state: tsRunnable}
+	t := &Thread{id: len(in.threads), resume: make(chan struct{}), state: tsRunnable, lastLog: -1}
 	if c, ok := fv.(*Closure); ok && c != nil && c.Fn != nil {
 		t.name = c.Fn.String()
 	}
@@ -158,12 +160,23 @@ func (in *Interp) blockUntil(cond func() bool, what string) {
 	if in.path.initMode {
 		panic(engineErr("blocking operation during package initialisation: %s", what))
 	}
+	// the operation announced by visible() does not execute now: take its log entry
+	// back and log it again when the thread resumes
+	relog := ""
+	if in.sched && t.lastLog >= 0 && t.lastLog == len(in.path.schedLog)-1 && in.path.schedLog[t.lastLog].T == t.id {
+		relog = in.path.schedLog[t.lastLog].Kind
+		in.path.schedLog = in.path.schedLog[:t.lastLog]
+		t.lastLog = -1
+	}
 	t.state = tsBlocked
 	t.waitOn = cond
 	t.what = what
 	in.yield()
 	t.state = tsRunnable
 	t.waitOn = nil
+	if relog != "" {
+		in.logOp(relog)
+	}
 }
 
 func (in *Interp) enabled(t *Thread) bool {
@@ -176,13 +189,54 @@ func (in *Interp) enabled(t *Thread) bool {
 	return false
 }
 
+// SchedEv is one executed visible operation (or timer firing) of a schedule.
+type SchedEv struct {
+	T    int    `json:"t"`    // thread id (creation order, main = 0); -1 = timer firing
+	Kind string `json:"kind"`
+	Pos  string `json:"pos,omitempty"`
+	N    int    `json:"n,omitempty"` // timer index for timer firings
+}
+
+func (in *Interp) logOp(kind string) {
+	t := in.cur
+	in.path.schedLog = append(in.path.schedLog, SchedEv{T: t.id, Kind: kind, Pos: in.callSite()})
+	t.lastLog = len(in.path.schedLog) - 1
+}
+
+// callSite returns file:line of the innermost instruction being executed.
+func (in *Interp) callSite() string {
+	if in.curIns == nil {
+		return ""
+	}
+	pos := in.curIns.Pos()
+	if !pos.IsValid() {
+		return ""
+	}
+	p := in.P.Prog.Fset.Position(pos)
+	f := p.Filename
+	if i := strings.LastIndex(f, "/"); i >= 0 {
+		f = f[i+1:]
+	}
+	return fmt.Sprintf("%s:%d", f, p.Line)
+}
+
 // visible marks a scheduling point (scheduler mode only).
 func (in *Interp) visible(kind string) {
 	if !in.sched || in.cur == nil || in.path.initMode {
 		return
 	}
+	if len(kind) > 3 && kind[:3] == "fs:" && in.Cfg.Params["fsvisible"] == 0 {
+		return
+	}
 	t := in.cur
 	t.ops++
+	in.schedDecision(kind)
+	// the operation is about to execute on this thread
+	in.logOp(kind)
+}
+
+func (in *Interp) schedDecision(kind string) {
+	t := in.cur
 	if in.path.preempts >= in.Cfg.Preempt {
 		return
 	}
@@ -225,6 +279,11 @@ func (in *Interp) fireableTimers() []*timerObj {
 
 func (in *Interp) fireTimer(tm *timerObj) {
 	in.path.timerFires++
+	for i, x := range in.timers {
+		if x == tm {
+			in.path.schedLog = append(in.path.schedLog, SchedEv{T: -1, Kind: "timer", N: i})
+		}
+	}
 	tm.ch.buf = append(tm.ch.buf, in.timeValue())
 	tm.fired++
 	if !tm.ticker {
